@@ -13,7 +13,7 @@ EXPLANATION = ("C17 (partial): fraction<T>(float) is executed symbolically.  Dec
                "loop; such paths are reported as 'bound-exceeded', never as success).")
 BOUNDS = {"quick": "T = int8_t from float: integer inputs (all), loop unrolled K = 2 (fractional inputs), exact ratios k/4 with |x| < 4 (exactness, 3-step termination as a claim); T = int16_t from float / double: integer inputs",
           "thorough": "K = 5 for int8_t, K = 3 for int16_t"}
-OPTS = {"quick": {"kernel_budget": 700, "timeout": 45}, "thorough": {"kernel_budget": 3000, "timeout": 300}}
+OPTS = {"quick": {"kernel_budget": 700, "timeout": 45}, "thorough": {"kernel_budget": 1500, "timeout": 300}}
 
 OUT2 = Arg("out", "i32", "arr", n=2, out=True, init="uninit")
 
